@@ -344,6 +344,10 @@ func ApplyEvent(e *zerolog.Event, ops []Op) *zerolog.Event {
 			e = e.Fields(FieldsMap(v.Ops))
 		case "fieldsslice":
 			e = e.Fields(FieldsSlice(v.Ops))
+		case "fieldsodd":
+			e = e.Fields(append(FieldsSlice(v.Ops), "dangling-key"))
+		case "fieldsbad":
+			e = e.Fields(FieldsBad(v.I))
 		case "func":
 			ops := v.Ops
 			e = e.Func(func(e *zerolog.Event) { ApplyEvent(e, ops) })
@@ -486,6 +490,10 @@ func ApplyContext(c zerolog.Context, ops []Op) zerolog.Context {
 			c = c.Fields(FieldsMap(v.Ops))
 		case "fieldsslice":
 			c = c.Fields(FieldsSlice(v.Ops))
+		case "fieldsodd":
+			c = c.Fields(append(FieldsSlice(v.Ops), "dangling-key"))
+		case "fieldsbad":
+			c = c.Fields(FieldsBad(v.I))
 		default:
 			panic("lp: ApplyContext: unknown type " + v.T)
 		}
@@ -689,6 +697,22 @@ func FieldsGo(v Val) interface{} {
 	panic("lp: FieldsGo: unsupported type " + v.T)
 }
 
+// FieldsBad returns an argument Fields() documents as ignored: neither a
+// map[string]interface{} nor a []interface{}.
+func FieldsBad(sel int64) interface{} {
+	switch sel % 5 {
+	case 0:
+		return nil
+	case 1:
+		return "a string"
+	case 2:
+		return map[string]string{"k": "v"}
+	case 3:
+		return []string{"k", "v"}
+	}
+	return 42
+}
+
 func FieldsMap(ops []Op) map[string]interface{} {
 	m := make(map[string]interface{}, len(ops))
 	for _, op := range ops {
@@ -700,6 +724,10 @@ func FieldsMap(ops []Op) map[string]interface{} {
 func FieldsSlice(ops []Op) []interface{} {
 	s := make([]interface{}, 0, 2*len(ops))
 	for _, op := range ops {
+		if op.BadKey {
+			s = append(s, len(op.K), FieldsGo(op.V))
+			continue
+		}
 		s = append(s, string(op.K), FieldsGo(op.V))
 	}
 	return s
